@@ -100,10 +100,34 @@ func runC20(c *Ctx) {
 	}
 	// a different consensus state at an existing height is misbehaviour
 	if rr := c.Run(which, tm+".ClientState.CheckForMisbehaviour"); rr != nil {
-		c.CheckRets(which, "C20/misbehaviour/existing-height", rr, func(r *interp.Ret) bool {
-			return len(r.Results) == 1 && e.T.Op(r.Results[0]) == "false" &&
-				c.HasAtom(which, nil, "T(extract:1(call:"+tm+".GetConsensusState(param#3, _, _)))")(r)
-		}, 1, nil, Req{Name: "false-only-if-identical", Any: all("T(call:reflect.DeepEqual(~in(call:iface:*KVStore.Get(param#3, ~key(\"consensusStates/{s}\", _))), _))")})
+		// on every return class where a consensus state exists at the header's height, "no misbehaviour" is
+		// answered only if it is identical: the result is true, or false with DeepEqual established, or the
+		// negated comparison itself
+		fk := tm + ".ClientState.CheckForMisbehaviour"
+		found := c.HasAtom(which, nil, "T(extract:1(call:"+tm+".GetConsensusState(param#3, _, _)))")
+		deq := "call:reflect.DeepEqual(~in(call:iface:*KVStore.Get(param#3, ~key(\"consensusStates/{s}\", _))), _)"
+		pT, pNot := c.pats(which, nil, "T("+deq+")")[0], c.pats(which, nil, "not("+deq+")")[0]
+		n, bad := 0, 0
+		for _, r := range rr.Rets {
+			if len(r.Results) != 1 || !found(r) {
+				continue
+			}
+			switch res := r.Results[0]; {
+			case e.T.Op(res) == "true":
+			case e.T.Op(res) == "false" && e.T.Any(pT, r.Atoms, nil):
+				n++
+			case e.T.Any(pNot, setOf(res), nil):
+				n++
+			default:
+				bad++
+				c.bad("C20/misbehaviour/existing-height/false-only-if-identical", fk, "", "with a consensus state stored at the header's height the answer is "+clip(e.T.String(res), 160)+" without the stored and the header's consensus state being compared")
+			}
+		}
+		if bad == 0 && n > 0 {
+			c.ok("C20/misbehaviour/existing-height/false-only-if-identical", fk, "", fmt.Sprintf("%d return class(es): no misbehaviour at an existing height only for an identical consensus state", n))
+		} else if n == 0 && bad == 0 {
+			c.bad("C20/misbehaviour/existing-height/false-only-if-identical", fk, "", "no return class compares the header with the consensus state stored at its height")
+		}
 	}
 	// freezing writes only the client state
 	if rr := c.Run(which, tm+".ClientState.UpdateStateOnMisbehaviour"); rr != nil {
